@@ -7,6 +7,7 @@ import (
 	"verif/props/c02"
 	"verif/props/c03"
 	"verif/props/c09"
+	"verif/props/c10"
 )
 
 // Registry maps property ids to spec constructors.
@@ -16,5 +17,6 @@ func Registry() map[string]func() *mon.Spec {
 		"C02": c02.Spec,
 		"C03": c03.Spec,
 		"C09": c09.Spec,
+		"C10": c10.Spec,
 	}
 }
